@@ -612,6 +612,20 @@ def cmdUpgrade : P String := do
     return s!"DIFF C18 client-did-not-receive-the-upgraded-payload expected={toCli.length} got={gotCli.length} {feats}"
   return s!"OK {feats}"
 
-def table : List (String × P String) := [("act", cmdAct), ("atoi", cmdAtoi), ("addr", cmdAddr), ("reg", cmdReg), ("client", cmdClient), ("e2e", cmdE2e), ("abort", cmdAbort), ("connr", cmdConnR), ("jsonself", cmdJsonSelf), ("upgrade", cmdUpgrade)]
+/-! ## C02 send side under concurrency: `bigframes <conns> <calls> <procs> | <bad> <first>` (oracle evaluated in the harness) -/
+
+def cmdBigFrames : P String := do
+  let conns ← nat
+  let calls ← nat
+  let procs ← nat
+  expect "|"
+  let bad ← nat
+  let first ← tok
+  let feats := s!"nt=1 conns={conns} calls={calls} procs={procs}"
+  if bad != 0 then
+    return s!"DIFF C02 message-on-the-wire-corrupted-under-concurrent-large-writes bad={bad} first={first} {feats}"
+  return s!"OK {feats}"
+
+def table : List (String × P String) := [("act", cmdAct), ("atoi", cmdAtoi), ("addr", cmdAddr), ("reg", cmdReg), ("client", cmdClient), ("e2e", cmdE2e), ("abort", cmdAbort), ("connr", cmdConnR), ("jsonself", cmdJsonSelf), ("upgrade", cmdUpgrade), ("bigframes", cmdBigFrames)]
 
 end Driver.Misc
